@@ -970,7 +970,28 @@ _prewarm()
 # ---------------------------------------------------------------------------
 # one run
 # ---------------------------------------------------------------------------
+SERVER_TZS = ['UTC', 'UTC', 'EST5', 'MSK-3', 'IST-5:30', 'NZST-12']
+
+
 def run(ctx):
+    """The server's local time zone is an environment knob: nothing the route
+    does may depend on it (file times are compared and reported in UTC)."""
+    import time as _time
+    tz = SERVER_TZS[ctx.ch.draw(len(SERVER_TZS), 'server_tz')]
+    old = os.environ.get('TZ')
+    os.environ['TZ'] = tz
+    _time.tzset()
+    try:
+        _run(ctx, tz)
+    finally:
+        if old is None:
+            os.environ.pop('TZ', None)
+        else:
+            os.environ['TZ'] = old
+        _time.tzset()
+
+
+def _run(ctx, server_tz):
     ch = ctx.ch
     cfg = gen_config(ch)
     req = gen_request(ch, cfg)
@@ -997,6 +1018,7 @@ def run(ctx):
         'method': req.method, 'target': req.shown[:300], 'path_class': req.cls,
         'prefix_match': req.pm, 'range': req.range_val, 'range_class': req.range_cls,
         'if_modified_since': req.ims_val, 'ims_class': req.ims_cls, 'knobs': knobs,
+        'server_tz': server_tz,
     }
     ctx.plan_key = json.dumps(ctx.plan, sort_keys=True)
     if req.method == 'HEAD':
